@@ -22,8 +22,8 @@ CONSTANTS MaxCalls,     \* length of a call sequence
 
 Allowed == {"ok", "err"}
 
-VARIABLES closed, txn, sps, h1, uExists, hist, fin
-vars == <<closed, txn, sps, h1, uExists, hist, fin>>
+VARIABLES closed, txn, sps, h1, uExists, marked, hist, fin
+vars == <<closed, txn, sps, h1, uExists, marked, hist, fin>>
 
 Null == [null |-> TRUE]
 PVal(ty, i) == CASE ty = "int"   -> 100 + i
@@ -93,11 +93,17 @@ AdminCalls == { Exec("PRAGMA wal = OFF"), Exec("PRAGMA wal = ON"), Exec("PRAGMA 
                 Exec("PRAGMA wal_checkpoint_threshold = 0"), Exec("PRAGMA wal_checkpoint_threshold = 1"), Exec("PRAGMA join_memory_budget = 0"),
                 Exec("PRAGMA join_memory_budget = 18446744073709551615"), Exec("PRAGMA database_mode"), Exec("PRAGMA memory_stats"), Exec("PRAGMA wal_autoflush = OFF"),
                 Exec("SET foreign_keys = ON") }
+\* a stored value that LOOKS like an internal encoding (a 17-byte blob starting with the TOAST marker 0xFE) and the reads of it;
+\* `marked` remembers that it was stored, so that the reads are generated after the write (the view distinguishes it)
+MarkWrite == Exec("INSERT INTO t (id, b) VALUES (100, x'FE0102030405060708090A0B0C0D0E0F10')")
+MarkCalls == { MarkWrite, Exec("SELECT id, b FROM t"), Exec("SELECT LENGTH(b) FROM t WHERE id = 100"), Exec("UPDATE t SET i = 1 WHERE id = 100"),
+               Exec("DELETE FROM t WHERE id = 100"), Exec("UPDATE t SET b = x'FE' WHERE id = 1") }
+
 HandleCalls == { Op("close"), Op("reopen"), Op("close_reopen"), Op("checkpoint"), [k |-> "clone", h |-> 1], [k |-> "drop_handle", h |-> 1],
                  ExecH1("INSERT INTO u (id, i, tx, tid) VALUES (150, 150, 'h1', 1)"), ExecH1("COMMIT"), ExecH1("BEGIN"), ExecH1("SELECT COUNT(*) FROM u"),
                  [k |-> "close", h |-> 1], [k |-> "checkpoint", h |-> 1] }
 
-Calls == TxnCalls \cup DmlCalls \cup DdlCalls \cup AdminCalls \cup HandleCalls \cup ParamCalls \cup PreparedCalls
+Calls == TxnCalls \cup DmlCalls \cup DdlCalls \cup AdminCalls \cup HandleCalls \cup MarkCalls \cup ParamCalls \cup PreparedCalls
 
 IsSql(c, s) == "sql" \in DOMAIN c /\ c.sql = s
 OnH0(c) == c.h = 0
@@ -127,11 +133,12 @@ Sit(c) ==
   \cup (IF c.k = "prepared" THEN {"prepared_reuse"} ELSE {})
   \cup (IF c.k = "batch" THEN {"batch_api"} ELSE {})
   \cup (IF c \in AdminCalls THEN {"pragma"} ELSE {})
+  \cup (IF marked /\ c \in MarkCalls \ {MarkWrite} THEN {"read_of_marker_like_value"} ELSE {})
 
 Without(s, name) == LET idx == {i \in 1..Len(s) : s[i] = name} IN
                     IF idx = {} THEN s ELSE SubSeq(s, 1, (CHOOSE i \in idx : \A k \in idx : k <= i) - 1)
 
-Init == closed = FALSE /\ txn = FALSE /\ sps = <<>> /\ h1 = "none" /\ uExists = TRUE /\ hist = <<>> /\ fin = FALSE
+Init == closed = FALSE /\ txn = FALSE /\ sps = <<>> /\ h1 = "none" /\ uExists = TRUE /\ marked = FALSE /\ hist = <<>> /\ fin = FALSE
 
 Call(c) ==
   /\ Len(hist) < MaxCalls /\ UNCHANGED fin
@@ -147,17 +154,18 @@ Call(c) ==
              ELSE IF IsSql(c, "RELEASE SAVEPOINT b") THEN Without(sps, "b")
              ELSE sps)
   /\ h1' = (IF c.k = "clone" THEN "open" ELSE IF c.k = "drop_handle" \/ c.k \in {"reopen", "close_reopen"} THEN "none" ELSE h1)
+  /\ marked' = (marked \/ c = MarkWrite)
   /\ uExists' = (IF IsSql(c, "DROP TABLE u") \/ IsSql(c, "ALTER TABLE u RENAME TO u9") \/ IsSql(c, "DROP SCHEMA root") THEN FALSE
                  ELSE IF IsSql(c, "CREATE TABLE u (id INT PRIMARY KEY, i INT UNIQUE, tx TEXT NOT NULL, tid BIGINT)") THEN TRUE ELSE uExists)
 
 \* the sequence is complete and is handed over for execution
 Finish == /\ Len(hist) = MaxCalls /\ ~fin /\ fin' = TRUE
-          /\ UNCHANGED <<closed, txn, sps, h1, uExists, hist>>
+          /\ UNCHANGED <<closed, txn, sps, h1, uExists, marked, hist>>
 Next == (\E c \in Calls : Call(c)) \/ Finish
 Spec == Init /\ [][Next]_vars
 
 \* meta-properties of the model
-TypeOK == /\ closed \in BOOLEAN /\ txn \in BOOLEAN /\ uExists \in BOOLEAN /\ h1 \in {"none", "open"}
+TypeOK == /\ closed \in BOOLEAN /\ txn \in BOOLEAN /\ uExists \in BOOLEAN /\ marked \in BOOLEAN /\ h1 \in {"none", "open"}
           /\ Len(hist) <= MaxCalls /\ Len(sps) <= MaxCalls
           /\ \A i \in 1..Len(sps) : sps[i] \in {"a", "b"}
 SavepointsOnlyInTxn == (sps # <<>>) => txn
